@@ -253,4 +253,162 @@ theorem l2_chain_reparse (o : AnyObj) (os : List AnyObj) (hs : Stackable (o :: o
   | app _ => exact hs.elim
   | wifi _ => exact hs.elim
 
+/-- the same as a statement about the result of the re-parse (the parsing constructors are functions) -/
+theorem l2_chain_reparse_view (o : AnyObj) (os : List AnyObj) (hs : Stackable (o :: os)) (out : Bytes)
+    (hser : serializeObjs (o :: os) = .ok out) (os' : List AnyObj)
+    (hp : parseChain (out.length + 2) o.info.1 out = .ok os') : ViewEq (padOf (o :: os)) (o :: os) os' := by
+  rcases l2_chain_reparse o os hs out hser with ⟨os'', hp', hv⟩
+  have := hp'.symm.trans hp
+  injection this with this
+  subst this
+  exact hv
+
+/-- without minimum-frame padding in play the payload comes back byte for byte -/
+theorem l2_chain_reparse_nopad (o : AnyObj) (os : List AnyObj) (hs : Stackable (o :: os)) (hpad : padOf (o :: os) = 0)
+    (out : Bytes) (hser : serializeObjs (o :: os) = .ok out) :
+    ∃ os', parseChain (out.length + 2) o.info.1 out = .ok os' ∧ ViewEq 0 (o :: os) os' ∧
+      (splitRaw os').2 = (splitRaw (o :: os)).2 := by
+  rcases l2_chain_reparse o os hs out hser with ⟨os', hp, hv⟩
+  rw [hpad] at hv
+  refine ⟨os', hp, hv, ?_⟩
+  rcases hv.2 with ⟨j, hj, he⟩
+  have : j = 0 := by omega
+  subst this
+  simpa using he
+
+/-! ### non-vacuity: concrete stacks, their serialization, the re-parse, and the theorem applied to them -/
+
+section Examples
+
+/-- EthernetII / Dot1Q (padding on) / Dot1Q / RawPDU: 802.1ad tag derived for the outer VLAN tag, 39 bytes of padding in
+    the outer Dot1Q's trailer, which the re-parse appends to the payload; `append_padding` (not on the wire) is cleared -/
+def exQinQ : List AnyObj :=
+  [.l2 (.eth ⟨[1,2,3,4,5,6], [7,8,9,10,11,12], 0x1234⟩), .l2 (.dot1q ⟨5, 1, 0x234, 0, true⟩),
+   .l2 (.dot1q ⟨0, 0, 7, 0x9999, false⟩), .raw [0xaa, 0xbb, 0xcc]]
+def exQinQ_bytes : Bytes :=
+  [1,2,3,4,5,6, 7,8,9,10,11,12, 0x88,0xa8, 0xb2,0x34,0x81,0x00, 0x00,0x07,0x99,0x99, 0xaa,0xbb,0xcc] ++ List.replicate 39 0
+def exQinQ_re : List AnyObj :=
+  [.l2 (.eth ⟨[1,2,3,4,5,6], [7,8,9,10,11,12], 0x88a8⟩), .l2 (.dot1q ⟨5, 1, 0x234, 0x8100, false⟩),
+   .l2 (.dot1q ⟨0, 0, 7, 0x9999, false⟩), .raw ([0xaa, 0xbb, 0xcc] ++ List.replicate 39 0)]
+
+theorem exQinQ_stackable : Stackable exQinQ :=
+  ⟨⟨rfl, rfl, by decide⟩, trivial, ⟨by decide, by decide, by decide, by decide⟩, trivial,
+   ⟨by decide, by decide, by decide, by decide⟩, (by decide : Tags.classOfEther 0x9999 = none), rfl⟩
+example : serializeObjs exQinQ = .ok exQinQ_bytes := rfl
+example : padOf exQinQ = 39 := rfl
+example : parseChain (exQinQ_bytes.length + 2) "EthernetII" exQinQ_bytes = .ok exQinQ_re := rfl
+example : ViewEq 39 exQinQ exQinQ_re := l2_chain_reparse_view _ _ exQinQ_stackable exQinQ_bytes rfl _ rfl
+
+/-- Dot3 / LLC (unnumbered UI) / RawPDU: the 802.3 length is derived, no padding, payload identical -/
+def exDot3 : List AnyObj :=
+  [.l2 (.dot3 ⟨[1,2,3,4,5,6], [7,8,9,10,11,12], 0⟩), .l2 (.llc ⟨0xaa, 0xaa, .unnumbered, 1, 3, 0, 0, []⟩), .raw [1, 2, 3]]
+def exDot3_re : List AnyObj :=
+  [.l2 (.dot3 ⟨[1,2,3,4,5,6], [7,8,9,10,11,12], 6⟩), .l2 (.llc ⟨0xaa, 0xaa, .unnumbered, 1, 3, 0, 0, []⟩), .raw [1, 2, 3]]
+theorem exDot3_stackable : Stackable exDot3 :=
+  ⟨⟨rfl, rfl, by decide⟩, trivial, ⟨by decide, by decide, by decide, by decide, rfl, by decide, rfl⟩,
+   ⟨rfl, by decide⟩, rfl⟩
+example : serializeObjs exDot3 = .ok [1,2,3,4,5,6, 7,8,9,10,11,12, 0,6, 0xaa,0xaa,3, 1,2,3] := rfl
+example : parseChain 22 "Dot3" [1,2,3,4,5,6, 7,8,9,10,11,12, 0,6, 0xaa,0xaa,3, 1,2,3] = .ok exDot3_re := rfl
+example : ViewEq 0 exDot3 exDot3_re := l2_chain_reparse_view _ _ exDot3_stackable _ rfl _ rfl
+
+/-- Loopback / LLC: the family word is derived from the inner class (PF_LLC = 26) -/
+def exLoop : List AnyObj := [.l2 (.loopback ⟨0⟩), .l2 (.llc ⟨0x42, 0x42, .information, 2, 4, 7, 0, []⟩)]
+theorem exLoop_stackable : Stackable exLoop :=
+  ⟨(by decide : (0 : Nat) < 4294967296), trivial, ⟨by decide, by decide, by decide, by decide, rfl, by decide, rfl⟩, rfl, trivial⟩
+example : serializeObjs exLoop = .ok [26,0,0,0, 0x42,0x42,4,7] := rfl
+example : parseChain 10 "Loopback" [26,0,0,0, 0x42,0x42,4,7] =
+    .ok [.l2 (.loopback ⟨26⟩), .l2 (.llc ⟨0x42, 0x42, .information, 2, 4, 7, 0, []⟩)] := rfl
+example : ∃ os', parseChain 10 "Loopback" [26,0,0,0, 0x42,0x42,4,7] = .ok os' ∧ ViewEq 0 exLoop os' :=
+  l2_chain_reparse _ _ exLoop_stackable _ rfl
+
+/-- a Loopback header alone (family the parser does not dispatch on): re-parsed with an empty RawPDU, which counts as
+    no payload -/
+theorem exLoop1_stackable : Stackable [.l2 (.loopback ⟨7⟩)] :=
+  ⟨(by decide : (7 : Nat) < 4294967296), ⟨by decide, by decide, by decide⟩, trivial⟩
+example : parseChain 6 "Loopback" [7,0,0,0] = .ok [.l2 (.loopback ⟨7⟩), .raw []] := rfl
+example : ViewEq 0 [.l2 (.loopback ⟨7⟩)] [.l2 (.loopback ⟨7⟩), .raw []] :=
+  l2_chain_reparse_view _ _ exLoop1_stackable [7,0,0,0] rfl _ rfl
+
+/-- SLL / Dot1Q / RawPDU: the cooked header's protocol is derived (0x8100), the VLAN tag's type is kept (unknown payload) -/
+def exSll : List AnyObj :=
+  [.l2 (.sll ⟨0, 1, 6, [1,2,3,4,5,6,0,0], 0⟩), .l2 (.dot1q ⟨1, 0, 9, 0x1111, false⟩), .raw [9]]
+theorem exSll_stackable : Stackable exSll :=
+  ⟨⟨by decide, by decide, by decide, rfl, by decide⟩, trivial, ⟨by decide, by decide, by decide, by decide⟩,
+   (by decide : Tags.classOfEther 0x1111 = none), rfl⟩
+example : serializeObjs exSll = .ok [0,0, 0,1, 0,6, 1,2,3,4,5,6,0,0, 0x81,0x00, 0x20,0x09,0x11,0x11, 9] := rfl
+example : parseChain 23 "SLL" [0,0, 0,1, 0,6, 1,2,3,4,5,6,0,0, 0x81,0x00, 0x20,0x09,0x11,0x11, 9] =
+    .ok [.l2 (.sll ⟨0, 1, 6, [1,2,3,4,5,6,0,0], 0x8100⟩), .l2 (.dot1q ⟨1, 0, 9, 0x1111, false⟩), .raw [9]] := rfl
+example : ∃ os', parseChain 23 "SLL" [0,0, 0,1, 0,6, 1,2,3,4,5,6,0,0, 0x81,0x00, 0x20,0x09,0x11,0x11, 9] = .ok os' ∧
+    ViewEq 0 exSll os' := l2_chain_reparse _ _ exSll_stackable _ rfl
+
+/-- SNAP / MPLS (single label, nothing behind it) -/
+def exSnap : List AnyObj := [.l2 (.snap ⟨0xaa, 0xaa, 3, 0, 0⟩), .l2 (.mpls ⟨1, 0x21, 64⟩)]
+theorem exSnap_stackable : Stackable exSnap :=
+  ⟨⟨by decide, by decide, by decide, by decide, by decide⟩, trivial, ⟨by decide, by decide, by decide⟩, trivial, trivial⟩
+example : serializeObjs exSnap = .ok [0xaa,0xaa,3, 0,0,0, 0x88,0x47, 0,1,0x21,64] := rfl
+example : ∃ os', parseChain 14 "SNAP" [0xaa,0xaa,3, 0,0,0, 0x88,0x47, 0,1,0x21,64] = .ok os' ∧ ViewEq 0 exSnap os' :=
+  l2_chain_reparse _ _ exSnap_stackable _ rfl
+
+/-- EthernetII / MPLS / MPLS / RawPDU: a label stack (bottom-of-stack bit on the last label), padded to 60 bytes; the
+    36 padding bytes are appended to the payload by the re-parse -/
+def exMpls : List AnyObj :=
+  [.l2 (.eth ⟨[1,2,3,4,5,6], [7,8,9,10,11,12], 0⟩), .l2 (.mpls ⟨1, 0x20, 64⟩), .l2 (.mpls ⟨2, 0x31, 63⟩), .raw [1, 2]]
+def exMpls_bytes : Bytes :=
+  [1,2,3,4,5,6, 7,8,9,10,11,12, 0x88,0x47, 0,1,0x20,64, 0,2,0x31,63, 1,2] ++ List.replicate 36 0
+def exMpls_re : List AnyObj :=
+  [.l2 (.eth ⟨[1,2,3,4,5,6], [7,8,9,10,11,12], 0x8847⟩), .l2 (.mpls ⟨1, 0x20, 64⟩), .l2 (.mpls ⟨2, 0x31, 63⟩),
+   .raw ([1, 2] ++ List.replicate 36 0)]
+theorem exMpls_stackable : Stackable exMpls :=
+  ⟨⟨rfl, rfl, by decide⟩, trivial, ⟨by decide, by decide, by decide⟩, (rfl : (0x20 : Nat) % 2 = 0),
+   ⟨by decide, by decide, by decide⟩, ⟨rfl, by decide, by decide⟩, rfl⟩
+example : serializeObjs exMpls = .ok exMpls_bytes := rfl
+example : padOf exMpls = 36 := rfl
+example : parseChain (exMpls_bytes.length + 2) "EthernetII" exMpls_bytes = .ok exMpls_re := rfl
+example : ViewEq 36 exMpls exMpls_re := l2_chain_reparse_view _ _ exMpls_stackable exMpls_bytes rfl _ rfl
+
+/-- EthernetII / PPPoE session / RawPDU: EtherType 0x8864 and the PPPoE payload length are derived; the 37 bytes of
+    Ethernet padding are cut off by that length, the payload comes back unchanged -/
+def exPppoe : List AnyObj :=
+  [.l2 (.eth ⟨[1,2,3,4,5,6], [7,8,9,10,11,12], 0⟩), .l2 (.pppoe ⟨1, 1, 0, 0x1234, 0, [], 0⟩), .raw [1, 2, 3]]
+def exPppoe_bytes : Bytes :=
+  [1,2,3,4,5,6, 7,8,9,10,11,12, 0x88,0x64, 0x11,0,0x12,0x34,0,3, 1,2,3] ++ List.replicate 37 0
+def exPppoe_re : List AnyObj :=
+  [.l2 (.eth ⟨[1,2,3,4,5,6], [7,8,9,10,11,12], 0x8864⟩), .l2 (.pppoe ⟨1, 1, 0, 0x1234, 3, [], 0⟩), .raw [1, 2, 3]]
+theorem exPppoe_stackable : Stackable exPppoe :=
+  ⟨⟨rfl, rfl, by decide⟩, trivial,
+   ⟨by decide, by decide, by decide, by decide, by decide, rfl, fun t ht => by cases ht⟩, ⟨rfl, rfl, by decide⟩, rfl⟩
+example : serializeObjs exPppoe = .ok exPppoe_bytes := rfl
+example : parseChain (exPppoe_bytes.length + 2) "EthernetII" exPppoe_bytes = .ok exPppoe_re := rfl
+example : ViewEq 37 exPppoe exPppoe_re := l2_chain_reparse_view _ _ exPppoe_stackable exPppoe_bytes rfl _ rfl
+
+/-- EthernetII / PPPoE discovery with a Service-Name tag: EtherType 0x8863, tag list read back in order, padding ignored -/
+def exPppoeD : List AnyObj :=
+  [.l2 (.eth ⟨[1,2,3,4,5,6], [7,8,9,10,11,12], 0⟩), .l2 (.pppoe ⟨1, 1, 9, 0, 0, [⟨PPPoE.SERVICE_NAME, 2, [0x61, 0x62]⟩], 6⟩)]
+def exPppoeD_bytes : Bytes :=
+  [1,2,3,4,5,6, 7,8,9,10,11,12, 0x88,0x63, 0x11,9,0,0,0,6, 1,1,0,2,0x61,0x62] ++ List.replicate 34 0
+theorem exPppoeD_stackable : Stackable exPppoeD :=
+  ⟨⟨rfl, rfl, by decide⟩, trivial,
+   ⟨by decide, by decide, by decide, by decide, by decide, rfl,
+    fun t ht => by
+      simp only [List.mem_singleton] at ht
+      subst ht
+      exact ⟨rfl, by decide, by decide⟩⟩,
+   ⟨fun h => absurd h (by decide), by decide⟩, trivial⟩
+example : serializeObjs exPppoeD = .ok exPppoeD_bytes := rfl
+example : parseChain (exPppoeD_bytes.length + 2) "EthernetII" exPppoeD_bytes =
+    .ok [.l2 (.eth ⟨[1,2,3,4,5,6], [7,8,9,10,11,12], 0x8863⟩),
+         .l2 (.pppoe ⟨1, 1, 9, 0, 6, [⟨PPPoE.SERVICE_NAME, 2, [0x61, 0x62]⟩], 6⟩)] := rfl
+example : ∃ os', parseChain (exPppoeD_bytes.length + 2) "EthernetII" exPppoeD_bytes = .ok os' ∧ ViewEq 34 exPppoeD os' :=
+  l2_chain_reparse _ _ exPppoeD_stackable _ rfl
+
+/-- the hypotheses matter: an EtherType that names IP above an opaque payload is not a packet a parser can give back
+    (`Stackable` fails, and indeed the re-parse hands the payload to the IP constructor, which rejects it) -/
+example : ¬ Stackable [.l2 (.eth ⟨[1,2,3,4,5,6], [7,8,9,10,11,12], 0x0800⟩), .raw [1, 2, 3]] := by
+  intro h
+  have h2 : Tags.classOfEther 0x0800 = none := h.2.1
+  revert h2
+  decide
+
+end Examples
+
 end Tins.Wire.L2
